@@ -668,4 +668,218 @@ theorem repAtG_congr (g1 g2 : Bytes → Option Val) (m1 m2 : Spec) (p : Bytes)
   rw [← hg _ (Or.inr ⟨ix, hix, val, rfl⟩)]
   exact h.2 ix hix val
 
+/-! ### Save keeps the db sorted and of table shape -/
+
+theorem mem_delDupKey (kvs : List KV) (kv : KV) (h : kv ∈ delDupKey kvs) : kv ∈ kvs := by
+  have gen : ∀ (acc : List KV), kv ∈ kvs.foldl (fun acc kv =>
+        if acc.any (fun e => e.1 == kv.1) then acc.map (fun e => if e.1 == kv.1 then kv else e)
+        else acc ++ [kv]) acc → kv ∈ acc ∨ kv ∈ kvs := by
+    clear h
+    induction kvs with
+    | nil => intro acc h; left; exact h
+    | cons x rest ih =>
+      intro acc h
+      simp only [List.foldl_cons] at h
+      rcases ih _ h with h' | h'
+      · split at h'
+        · obtain ⟨e, he, heq⟩ := List.mem_map.1 h'
+          split at heq
+          · right; rw [← heq]; exact List.mem_cons_self
+          · left; rw [← heq]; exact he
+        · rcases List.mem_append.1 h' with h'' | h''
+          · left; exact h''
+          · right; simp only [List.mem_singleton] at h''; rw [h'']; exact List.mem_cons_self
+      · right; exact List.mem_cons_of_mem _ h'
+  rcases gen [] h with h' | h'
+  · cases h'
+  · exact h'
+
+theorem sorted_applyKVs (db : TDB) (kvs : List KV) (hs : Sorted db) : Sorted (applyKVs db kvs) := by
+  induction kvs generalizing db with
+  | nil => exact hs
+  | cons kv rest ih =>
+    have : applyKVs db (kv :: rest) =
+        applyKVs (match kv.2 with | none => erase db kv.1 | some v => put db kv.1 v) rest := rfl
+    rw [this]
+    apply ih
+    cases kv.2 with
+    | none => exact C09.sorted_filter db hs _
+    | some v => exact C09.sorted_put db _ _ hs
+
+theorem mem_applyKVs (db : TDB) (kvs : List KV) (e : Bytes × Val) (h : e ∈ applyKVs db kvs) :
+    e ∈ db ∨ (e.1, some e.2) ∈ kvs := by
+  induction kvs generalizing db with
+  | nil => left; exact h
+  | cons kv rest ih =>
+    have : applyKVs db (kv :: rest) =
+        applyKVs (match kv.2 with | none => erase db kv.1 | some v => put db kv.1 v) rest := rfl
+    rw [this] at h
+    rcases ih _ h with h' | h'
+    · cases hv : kv.2 with
+      | none =>
+        simp only [hv] at h'
+        left; exact (List.mem_filter.1 h').1
+      | some v =>
+        simp only [hv] at h'
+        rcases C09.mem_of_mem_put db _ _ e h' with h'' | h''
+        · right
+          have : kv = (e.1, some e.2) := by
+            rw [h'']; simp [← hv]
+          rw [this]; exact List.mem_cons_self
+        · left; exact h''
+    · right; exact List.mem_cons_of_mem _ h'
+
+theorem rowKVs_vals (r : CRow) (key : Bytes) (v : Val) (h : (key, some v) ∈ rowKVs r) :
+    key = dataKey r.primary ∨ ∃ ix ∈ indexes, ∃ x, key = indexKey ix.1 x r.primary ∧ v = Val.pk r.primary := by
+  unfold rowKVs saveRow at h
+  cases hty : r.ty <;> simp only [hty] at h
+  · cases h
+  · simp only [addRow, List.mem_cons, List.mem_map, Prod.mk.injEq] at h
+    rcases h with h | ⟨ix, hix, h⟩
+    · left; exact h.1
+    · right; exact ⟨ix, hix, _, h.1.symm, by simpa using h.2.symm⟩
+  · unfold updateRow at h
+    cases hold : r.old with
+    | none => simp [hold] at h
+    | some old =>
+      simp only [hold] at h
+      by_cases hd : r.data = old
+      · simp [hd] at h
+      · simp only [hd, if_false, List.mem_cons, List.mem_flatMap, List.mem_filter, List.not_mem_nil,
+          or_false, Prod.mk.injEq] at h
+        rcases h with h | ⟨ix, ⟨hix, _⟩, h | h⟩
+        · left; exact h.1
+        · simp at h
+        · right; exact ⟨ix, hix, _, h.1, by simpa using h.2⟩
+  · simp only [delRow, List.mem_cons, List.mem_map, Prod.mk.injEq] at h
+    rcases h with h | ⟨ix, hix, h⟩
+    · simp at h
+    · simp at h
+
+/-! ### listing -/
+
+def rowOfVal (db : TDB) : Val → Option Row
+  | .pk p => (match getData db p with | .row _ d => some d | _ => none)
+  | .row _ _ => none
+
+theorem collectRows_eq (db : TDB) (vals : List Val) (acc : List Row)
+    (h : ∀ v ∈ vals, (rowOfVal db v).isSome) :
+    collectRows db vals acc =
+      if (acc.reverse ++ vals.filterMap (rowOfVal db)).isEmpty then .notfound
+      else .rows (acc.reverse ++ vals.filterMap (rowOfVal db)) := by
+  induction vals generalizing acc with
+  | nil => simp [collectRows]
+  | cons v rest ih =>
+    have hv := h v List.mem_cons_self
+    have hrest := fun v' hv' => h v' (List.mem_cons_of_mem _ hv')
+    cases v with
+    | row _ _ => simp [rowOfVal] at hv
+    | pk p =>
+      simp only [rowOfVal] at hv
+      cases hg : getData db p with
+      | missing => simp [hg] at hv
+      | undecodable => simp [hg] at hv
+      | row q d =>
+        simp only [collectRows, hg]
+        rw [ih (d :: acc) hrest]
+        simp [rowOfVal, hg]
+
+theorem prefix_same_len {α : Type} (a b t : List α) (hp : a <+: b ++ t) (hl : a.length = b.length) : a = b := by
+  obtain ⟨s, hs⟩ := hp
+  exact (List.append_inj hs hl).1
+
+theorem meta_not_prefix_data (x p : Bytes) : ¬ (metaPrefix ++ x) <+: dataKey p := by
+  intro h
+  obtain ⟨s, hs⟩ := h
+  simp [metaPrefix, dataKey, dataPrefix] at hs
+
+theorem snoc_cases {α : Type} (l : List α) : l = [] ∨ ∃ L b, l = L ++ [b] := by
+  induction l with
+  | nil => left; rfl
+  | cons x xs ih =>
+    right
+    rcases ih with h | ⟨L, b, h⟩
+    · subst h; exact ⟨[], x, rfl⟩
+    · subst h; exact ⟨x :: L, b, rfl⟩
+
+theorem inRange_snoc (q : Bytes) (c : Nat) (x : Bytes) (hc : c < 255) :
+    C09.inRange (q ++ [c]) x = true ↔ (q ++ [c]) <+: x := by
+  simp only [C09.inRange, C09.prefixUpper_snoc q c hc, Bool.and_eq_true]
+  exact C09.window_iff_prefix q c x
+
+theorem inRange_indexPrefix (name val x : Bytes) (hff : ∀ b ∈ val, b < 255) :
+    C09.inRange (indexPrefix name ++ val) x = true ↔ (indexPrefix name ++ val) <+: x := by
+  rcases snoc_cases val with h | ⟨L, b, h⟩
+  · subst h
+    have : indexPrefix name ++ [] = (metaPrefix ++ name) ++ [sep] := by simp [indexPrefix]
+    rw [this]
+    exact inRange_snoc _ _ _ (by decide)
+  · subst h
+    have : indexPrefix name ++ (L ++ [b]) = (indexPrefix name ++ L) ++ [b] := by simp
+    rw [this]
+    exact inRange_snoc _ _ _ (hff b (by simp))
+
+theorem index_name_eq (ix ix' : Bytes × (Row → Bytes)) (h : ix ∈ indexes) (h' : ix' ∈ indexes)
+    (hn : ix.1 = ix'.1) : ix = ix' := by
+  simp only [indexes, List.mem_cons, List.not_mem_nil, or_false] at h h'
+  rcases h with h | h <;> rcases h' with h' | h' <;> subst h <;> subst h' <;>
+    first | rfl | (simp [nameF1, nameF2] at hn)
+
+/-- the records an index listing with prefix `val` can see are exactly the index entries of the
+present rows whose field equals `val` (fixed-width values). -/
+theorem index_window (db : TDB) (m : Spec) (ix : Bytes × (Row → Bytes)) (val : Bytes)
+    (hs : Sorted db) (hrep : Rep db m) (hshape : Shape db) (hix : ix ∈ indexes)
+    (hw : ∀ p r, m p = some r → (ix.2 r).length = val.length) (hff : ∀ b ∈ val, b < 255)
+    (e : Bytes × Val) :
+    (e ∈ db ∧ C09.inRange (indexPrefix ix.1 ++ val) e.1 = true) ↔
+      ∃ p r, NoSep p ∧ p ≠ [] ∧ m p = some r ∧ ix.2 r = val ∧ e = (indexKey ix.1 val p, Val.pk p) := by
+  constructor
+  · rintro ⟨he, hr⟩
+    have hpre := (inRange_indexPrefix ix.1 val e.1 hff).1 hr
+    rcases hshape e he with ⟨p, hk⟩ | ⟨ix', hix', v, p, hp, hpne, hk⟩
+    · exfalso
+      rw [hk] at hpre
+      have : indexPrefix ix.1 ++ val = metaPrefix ++ (ix.1 ++ [sep] ++ val) := by simp [indexPrefix]
+      rw [this] at hpre
+      exact meta_not_prefix_data _ _ hpre
+    · subst hk
+      simp only at hpre
+      have h1 : indexPrefix ix.1 ++ val = metaPrefix ++ (ix.1 ++ ([sep] ++ val)) := by simp [indexPrefix]
+      have h2 : indexKey ix'.1 v p = metaPrefix ++ (ix'.1 ++ ([sep] ++ (v ++ ([sep] ++ p)))) := by
+        simp [indexKey, indexPrefix]
+      rw [h1, h2] at hpre
+      have h3 := (List.prefix_append_right_inj _).1 hpre
+      obtain ⟨s, hs'⟩ := h3
+      have hlen : ix.1.length = ix'.1.length := by rw [name_len ix hix, name_len ix' hix']
+      rw [List.append_assoc] at hs'
+      obtain ⟨hn, hrest⟩ := List.append_inj hs' hlen
+      have hixeq := index_name_eq ix ix' hix hix' hn
+      subst hixeq
+      simp only [List.singleton_append, List.cons_append, List.cons.injEq, true_and] at hrest
+      -- the entry is in the db: Rep gives the row
+      have hget := (C09.get_eq_some_iff db hs _ _).2 he
+      have hr2 := (hrep p hp).2 ix hix v
+      rw [hget] at hr2
+      cases hm : m p with
+      | none => simp [hm] at hr2
+      | some r =>
+        simp only [hm] at hr2
+        by_cases hv : ix.2 r = v
+        · have hvl : val = v := by
+            apply prefix_same_len val v ([sep] ++ p) ⟨s, by simpa using hrest⟩
+            rw [← hv]; exact (hw p r hm).symm
+          subst hvl
+          exact ⟨p, r, hp, hpne, hm, hv, rfl⟩
+        · simp [hv] at hr2
+  · rintro ⟨p, r, hp, hpne, hm, hv, he⟩
+    subst he
+    constructor
+    · apply (C09.get_eq_some_iff db hs _ _).1
+      have := (hrep p hp).2 ix hix val
+      rw [this, hm]
+      simp [hv]
+    · apply (inRange_indexPrefix ix.1 val _ hff).2
+      simp only [indexKey]
+      exact ⟨[sep] ++ p, by simp⟩
+
 end C10
